@@ -442,11 +442,42 @@ func matchAttrVal(out string, pos int, want string, what string) (int, error) {
 	return pos + end, nil
 }
 
+// FilterRawRef is the reference reading of the tag filter on one piece of raw
+// HTML: every "<" or "</" that is followed by a tag name (an ASCII letter, then
+// anything up to white space, "/" or ">") whose lower-cased name the predicate
+// rejects has its "<" written as "&lt;"; nothing else changes.
+func FilterRawRef(raw string, rejects func(string) bool) string {
+	var sb strings.Builder
+	for i := 0; i < len(raw); i++ {
+		c := raw[i]
+		if c != '<' {
+			sb.WriteByte(c)
+			continue
+		}
+		j := i + 1
+		if j < len(raw) && raw[j] == '/' {
+			j++
+		}
+		k := j
+		if k < len(raw) && (raw[k] >= 'a' && raw[k] <= 'z' || raw[k] >= 'A' && raw[k] <= 'Z') {
+			for k < len(raw) && !strings.ContainsRune(" \t\n\f\r/>", rune(raw[k])) {
+				k++
+			}
+		}
+		if k > j && rejects(strings.ToLower(raw[j:k])) {
+			sb.WriteString("&lt;")
+		} else {
+			sb.WriteByte('<')
+		}
+	}
+	return sb.String()
+}
+
 // Match walks the library's output in lock step with the expected tokens.
-// filtered says whether a FilterTag predicate was installed: then, inside raw
-// HTML regions, a "<" of the source may appear as "&lt;" (C17 decides which
-// ones must).
-func Match(out string, toks []Tok, filtered bool) error {
+// filter is the predicate that was installed (nil: none): inside raw HTML
+// regions the output must then be exactly FilterRawRef of the source text.
+func Match(out string, toks []Tok, filter func(string) bool) error {
+	filtered := filter != nil
 	pos := 0
 	// Newline runs directly before or after a block-level tag are insignificant
 	// inter-block white space (the library emits none today; a renderer that
@@ -472,17 +503,13 @@ func Match(out string, toks []Tok, filtered bool) error {
 			pos, err = matchText(out, pos, t.Text, false, what+" (filtered renderer tag)")
 		case TRaw:
 			raw := t.Text
-			for i := 0; i < len(raw); i++ {
-				if pos < len(out) && out[pos] == raw[i] {
-					pos++
-					continue
-				}
-				if filtered && raw[i] == '<' && strings.HasPrefix(out[pos:], "&lt;") {
-					pos += 4
-					continue
-				}
-				return fmt.Errorf("%s (raw HTML %q): output differs at %d: %q", what, clip(raw), pos, clip(out[min(pos, len(out)):]))
+			if filtered {
+				raw = FilterRawRef(raw, filter)
 			}
+			if !strings.HasPrefix(out[pos:], raw) {
+				return fmt.Errorf("%s (raw HTML %q, expected in the output as %q): output has %q", what, clip(t.Text), clip(raw), clip(out[min(pos, len(out)):]))
+			}
+			pos += len(raw)
 		case TEnd:
 			s := "</" + t.Name + ">"
 			if !strings.HasPrefix(out[pos:], s) {
